@@ -254,7 +254,7 @@ class C12(Prop):
             "non-trivial = b is a permutation or single-point mutation of a tree with an object of >= 2 members; distinct by pair hash")
     ASSUMPTIONS = ["number perturbations strictly between 1 and 4 ulp are not generated (razor's edge of the relative tolerance)",
                    "pairs of two distinct non-finite numbers are not generated"]
-    REQUIRED_CLASSES = ["mut:" + m for m in MUTATIONS] + ["expect_equal", "expect_different", "ci_differs_from_cs", "const_keys", "string_refs", "parsed"]
+    REQUIRED_CLASSES = ["mut:" + m for m in MUTATIONS] + ["expect_equal", "expect_different", "ci_differs_from_cs", "const_keys", "string_refs", "parsed", "deep_tree"]
 
     def budget(self, tier):
         return {"workers": 14, "examples": 1500 if tier == "quick" else 30000}
@@ -268,6 +268,10 @@ class C12(Prop):
         tree = st.one_of(gens.shaped_documents(leaves, keys, max_leaves=12, min_leaves=3, unique_keys=True, fold_unique=True),
                          gens.shaped_documents(leaves, keys, max_leaves=12, min_leaves=4, unique_keys=True, fold_unique=True),
                          gens.shaped_documents(leaves, keys, max_leaves=5, unique_keys=True, fold_unique=True))
+        # deep chains stay compact in the case (expanded in run_case); arrays only: Compare is exponential in OBJECT nesting depth
+        deep = st.tuples(st.sampled_from([999, 1000, 1001, 1100]), st.sampled_from([["N", 1.0], ["S", b"x"], ["A", []], ["t"]])).map(
+            lambda t: ["D", "[", t[0], t[1]])
+        tree = st.tuples(gens.chance(60), tree, deep).map(lambda t: t[2] if t[0] else t[1])
         return st.fixed_dictionaries({"a": tree, "other": tree, "mutation": st.sampled_from(MUTATIONS),
                                       "rseed": st.integers(0, 2 ** 31), "variant": st.integers(0, 5)})
 
@@ -275,7 +279,19 @@ class C12(Prop):
         rnd = random.Random(case["rseed"])
         a = case["a"]
         kind = case["mutation"]
-        if kind == "independent":
+        if a[0] == "D":
+            # deep chain: equal separate tree, or the same chain with a different leaf / one level more
+            stats.cls("deep_tree")
+            k = case["rseed"] % 3
+            bd = a if k == 0 else (["D", "[", a[2], ["N", 2.0] if a[3] != ["N", 2.0] else ["t"]] if k == 1 else ["D", "[", a[2] + 1, a[3]])
+            a, b, applied, kind = model.expand(a), model.expand(bd), True, ("identity" if k == 0 else "deep_change")
+            if case["other"][0] == "D":
+                case = dict(case, other=["n"])
+        elif case["other"][0] == "D":
+            case = dict(case, other=model.expand(case["other"]))
+        if a is not case["a"] and kind in ("identity", "deep_change"):
+            pass
+        elif kind == "independent":
             b, applied = case["other"], True
         else:
             b, applied = mutate(a, kind, rnd)
@@ -373,7 +389,7 @@ class C12(Prop):
             arena.close()
         if lib.ledger_live() != 0:
             raise Violation("Compare left allocations behind", key="leak")
-        if kind != "independent" and kind != "identity" and any(n[0] == "O" and len(n[1]) >= 2 for n in model.walk_jv(a)):
+        if kind not in ("independent", "identity", "deep_change") and any(n[0] == "O" and len(n[1]) >= 2 for n in model.walk_jv(a)):
             stats.nontriv([a, b], {"a": a, "b": b, "relation": kind})
 
 
